@@ -1,7 +1,7 @@
 ----------------------------- MODULE JudgeWidth -----------------------------
 (* C34, V / second half of G for widgets: case walker.  A recorded case is one widget
    configuration with what the real widget rendered at several sizes:
-     [cfg : ..., renders : sequence of [W, H, lines : sequence of sequences of cell widths]]
+     [cfg : ..., renders : sequence of [W, H, lines : the display width of every rendered line]]
    and, for strings, [kind "str"/"lines", s, w, trim, force, lines, ttrim] = what wcwidth.Trim / Force /
    TrimEachLine / ui.Text.TrimWcwidth returned (projected to chars). *)
 EXTENDS Width, TLC, Json, SequencesExt
@@ -11,10 +11,11 @@ Init == k = 0
 Next == k < Len(Cases) /\ k' = k + 1
 BadRenders(x) == {j \in 1..Len(x.renders) : ~RenderOK(x.renders[j].W, x.renders[j].H, x.renders[j].lines)}
 StrOK(x) == WidthUnspecified(x.w) \/
-            /\ x.trim = TrimRef(x.s, x.w)
-            /\ x.force = ForceRef(x.s, x.w)
-            /\ x.lines = TrimEachLineRef(x.s, x.w)
-            /\ \A i \in 1..Len(x.ttrim) : x.ttrim[i] = TrimRef(x.s, x.w)
+            LET t == TrimRef(x.s, x.w)
+            IN /\ x.trim = t
+               /\ x.force = t \o Spaces(x.w - SumW(t))                      \* = ForceRef(x.s, x.w)
+               /\ x.lines = TrimEachLineRef(x.s, x.w)
+               /\ \A i \in 1..Len(x.ttrim) : x.ttrim[i] = t
 StrWhy(x) == IF x.trim # TrimRef(x.s, x.w) THEN "trim"
              ELSE IF x.force # ForceRef(x.s, x.w) THEN "force"
              ELSE IF x.lines # TrimEachLineRef(x.s, x.w) THEN "trimeachline" ELSE "text-trimwcwidth"
@@ -22,6 +23,6 @@ CaseOK(x) == IF x.kind = "widget" THEN BadRenders(x) = {} ELSE StrOK(x)
 Why(x) == IF x.kind = "widget"
           THEN LET j == CHOOSE j \in BadRenders(x) : \A i \in BadRenders(x) : j <= i
                IN <<j, RenderWhy(x.renders[j].W, x.renders[j].H, x.renders[j].lines)>>
-          ELSE <<0, StrWhy(x)>>
+          ELSE <<0, StrWhy(x), ToJson(TrimRef(x.s, x.w))>>
 Inv == k = 0 \/ CaseOK(Cases[k]) \/ PrintT(<<"BAD", k>> \o Why(Cases[k]))
 =============================================================================
